@@ -71,6 +71,8 @@ type inc struct {
 	lastOff   uint64
 	scanCur   uint64 // offset of the log event being handed to the batcher
 	real      isequencer.ISeqStorage
+	failGets  atomic.Int32 // number reads (Get) to fail before the next one succeeds
+	failedGet atomic.Int32 // how many were failed
 }
 
 // before is the fault-injection / parking hook on the IAppStorage calls of this incarnation:
@@ -83,6 +85,12 @@ func (in *inc) before(c *kit.Call) kit.Verdict {
 		return kit.Verdict{}
 	}
 	switch c.Op {
+	case "Get":
+		if in.failGets.Load() > 0 {
+			in.failGets.Add(-1)
+			in.failedGet.Add(1)
+			return kit.Verdict{FailBefore: errInjected}
+		}
 	case "PutBatch":
 		in.park("flusher", "st.write.enter")
 		if in.dead.Load() || in.writeOutcome == "err" {
@@ -314,6 +322,9 @@ func (d *driver) enabled() []string {
 		ms = append(ms, "start:1", "start:2")
 	} else {
 		ms = append(ms, "next:1", "next:2", "flush")
+		if d.errs < d.maxErrs {
+			ms = append(ms, "next:1:rf", "next:2:rf")
+		}
 		if d.actLoc == "none" {
 			ms = append(ms, "actualize", "actualize-after-append")
 		}
@@ -365,7 +376,17 @@ func (d *driver) do(m string) error {
 		var sq int
 		fmt.Sscanf(m, "next:%d", &sq)
 		k := (d.ws-1)*2 + (sq - 1)
+		if strings.HasSuffix(m, ":rf") {
+			// the first read of the number from the storage (if this Next gets that far) fails;
+			// Next retries it (a real 500 ms delay)
+			d.in.failGets.Store(1)
+		}
 		n, err := d.in.seq.Next(isequencer.SeqID(sq))
+		d.in.failGets.Store(0)
+		if d.in.failedGet.Swap(0) > 0 {
+			d.errs++
+			d.tags["number-read-failed"] = true
+		}
 		if err != nil {
 			return err
 		}
